@@ -264,7 +264,8 @@ def _no_ansi_tty_case(base_i, mode, pos, verb, tty_out, tty_err):
         return "\x1b" not in o + e and "pkg a: done" in o and "pkg b: done" in e and "Resolved" in e
     if mode == 1:
         return "\x1b[" in o and "\x1b[" in e            # forced on any stream
-    return ("\x1b" in o) == tty_out and ("\x1b" in e) == tty_err
+    # without a switch: a stream that does not support ANSI gets no escape byte (what a terminal stream gets by default is not the statement's business)
+    return (tty_out or "\x1b" not in o) and (tty_err or "\x1b" not in e)
 
 
 def no_ansi_tty(base: int, mode: int, pos: int, verb: int, tty_out: bool, tty_err: bool) -> bool:
